@@ -114,7 +114,11 @@ def _key_of(ann) -> str:
         raise AnalysisError("registered handler without a type annotation on its value parameter")
     if isinstance(ann, ast.Constant) and ann.value is None:
         return "None"
+    if isinstance(ann, ast.Call) and isinstance(ann.func, ast.Name) and ann.func.id == "type" and len(ann.args) == 1 and isinstance(ann.args[0], ast.Constant) and ann.args[0].value is None:
+        return "None"  # register(type(None))
     d = dotted(ann)
+    if d is not None and d.split(".")[-1] in ("NoneType", "_NoneType"):
+        return "None"
     if d is None:
         raise AnalysisError(f"dispatch annotation not understood: {ast.unparse(ann)}")
     return d
@@ -142,11 +146,42 @@ class Family:
         return self.table.get(DEFAULT)
 
 
+def _table_builder(project: Project, modname: str, call) -> bool:
+    """is `call` a call of a repo helper `f(fallback, handlers)` that wraps its first argument in a
+    singledispatchmethod and registers every (type, handler) item of its second argument on it?"""
+    if not (isinstance(call, ast.Call) and isinstance(call.func, ast.Name) and len(call.args) == 2 and isinstance(call.args[0], ast.Name) and isinstance(call.args[1], ast.Dict)):
+        return False
+    f = project.resolve(modname, call.func.id)
+    if not isinstance(f, Func):
+        return False
+    ps = [a.arg for a in f.node.args.args]
+    if len(ps) != 2:
+        return False
+    wraps = any(isinstance(c, ast.Call) and _is_sdm(c.func) and len(c.args) == 1 and isinstance(c.args[0], ast.Name) and c.args[0].id == ps[0] for c in ast.walk(f.node))
+    loops = [l for l in ast.walk(f.node) if isinstance(l, ast.For) and isinstance(l.iter, ast.Call) and isinstance(l.iter.func, ast.Attribute) and l.iter.func.attr == "items" and isinstance(l.iter.func.value, ast.Name) and l.iter.func.value.id == ps[1]]
+    regs = any(isinstance(c, ast.Call) and isinstance(c.func, ast.Attribute) and c.func.attr == "register" and len(c.args) == 2 for l in loops for c in ast.walk(l))
+    return wraps and regs
+
+
 def own_family(ci: ClassInfo, name: str) -> Optional[Family]:
     """the family `name` if ci's own body (re-)declares it"""
     fn = ci.own_func(name)
     if fn is None:
-        return None
+        # the name may have been re-bound to the built dispatcher after the plain def
+        fn = next((f for f in ci.node.body if isinstance(f, ast.FunctionDef) and f.name == name), None)
+        if fn is None or not any(isinstance(st, ast.Assign) and len(st.targets) == 1 and isinstance(st.targets[0], ast.Name) and st.targets[0].id == name and _table_builder(ci.project, ci.module, st.value) for st in ci.node.body):
+            return None
+    # table form: `def convert(..): <default>` ... `convert = <builder>(convert, {str: _h1, type(None): _h2})`
+    for st in ci.node.body:
+        if isinstance(st, ast.Assign) and len(st.targets) == 1 and isinstance(st.targets[0], ast.Name) and st.targets[0].id == name and _table_builder(ci.project, ci.module, st.value) and st.value.args[0].id == name:
+            table = {DEFAULT: Handler(ci, fn, DEFAULT)}
+            funcs = {f.name: f for f in ci.node.body if isinstance(f, ast.FunctionDef)}
+            for k, v in zip(st.value.args[1].keys, st.value.args[1].values):
+                if k is None or not isinstance(v, ast.Name) or v.id not in funcs:
+                    raise AnalysisError(f"{ci.name}.{name}: dispatch table entry {ast.unparse(v)} is not a function of the class body")
+                for key in _keys_of(k):
+                    table[key] = Handler(ci, funcs[v.id], key)
+            return Family(ci, name, ci, table, plain=False)
     if not any(_is_sdm(d) for d in fn.decorator_list):
         return Family(ci, name, ci, {DEFAULT: Handler(ci, fn, DEFAULT)}, plain=True)
     table = {DEFAULT: Handler(ci, fn, DEFAULT)}
